@@ -7,6 +7,8 @@ func init() {
 		Run: func(c *Ctx) {
 			c.Rule("C12.R1", "CmdAdd / CmdDel ordering, pairing, rollback", 12)
 			ruleCniAddDel(c, "C12.R1")
+			c.Rule("C12.R2", "delegates receive Conf and IfName of the same entry", 2)
+			ruleDelegateArgs(c, "C12.R2")
 			c.Rule("C12.R3", "port mapping pairing in the request handler", 3)
 			ruleRequestPortMapping(c, "C12.R3")
 			c.Rule("C12.R4", "static configuration never written after Init", 3)
